@@ -172,6 +172,15 @@ func (e *env41) newConn() *conn41 {
 	return cn
 }
 
+// unauth returns unauthenticated connection ui, connecting anew if the
+// previous one authenticated or was closed by the server.
+func (e *env41) unauth(ui int) *conn41 {
+	if e.U[ui] == nil {
+		e.U[ui] = e.newConn()
+	}
+	return e.U[ui]
+}
+
 func (cn *conn41) addSession() int {
 	d, cs := cn.c.newSession()
 	cn.sess = append(cn.sess, cs)
@@ -565,7 +574,7 @@ func wellFormed(cmd commands.Command, args []warg) bool {
 // judges the reply and its effects.
 func (e *env41) uRequest(ui int) {
 	t := e.t
-	cn := e.U[ui]
+	cn := e.unauth(ui)
 	code := gen.Uniform(t, "cmd", nCmds+2)
 	if code >= nCmds {
 		code = gen.Pick(t, "badcmd", []int{nCmds, nCmds + 1, 0x7f, 0xff})
@@ -664,7 +673,7 @@ func (e *env41) uRequest(ui int) {
 	if cn.c.isDead() {
 		// the server closed it: continue with a fresh unauthenticated one
 		cn.c.close()
-		e.U[ui] = e.newConn()
+		e.U[ui] = nil // replaced by a fresh unauthenticated connection when next used
 		e.rec.Label("u_reconnected")
 	}
 }
@@ -815,7 +824,7 @@ func (e *env41) judgeAllowed(cn *conn41, cmd commands.Command, args []warg, wf b
 // uAuth makes one authentication attempt on unauthenticated connection ui.
 func (e *env41) uAuth(ui int) {
 	t := e.t
-	cn := e.U[ui]
+	cn := e.unauth(ui)
 	u := gen.Pick(t, "user", e.users)
 	if gen.Chance(t, "fresh nonce first", 50) {
 		desc := fmt.Sprintf("U%d: Nonce", ui)
@@ -948,7 +957,7 @@ func (e *env41) uAuth(ui int) {
 	}
 	e.rec.Label("auth_success_then_works")
 	e.authed = append(e.authed, cn)
-	e.U[ui] = e.newConn()
+	e.U[ui] = nil
 }
 
 // ---------------------------------------------------------------- the property
@@ -966,9 +975,13 @@ func TestC41(t *testing.T) {
 	defer leakReport(rec, 0)()
 	dbms.VerifClearTokens()
 
-	rt.Check(t, rec, "unauth", 600, 5000, func(t *rapid.T) {
+	rt.Check(t, rec, "unauth", 500, 5000, func(t *rapid.T) {
 		e := &env41{t: t, rec: rec, validTokens: map[string]bool{}, nextK: 100}
-		e.frag = genFrag().Draw(t, "frag")
+		// (fragmentation is C40's subject; a third of the cases keep it here)
+		e.frag = frag{RawW: []int{1 << 20}, RawR: []int{1 << 20}, AppW: []int{1 << 20}, AppR: []int{1 << 20}}
+		if gen.Chance(t, "fragmented", 33) {
+			e.frag = genFrag().Draw(t, "frag")
+		}
 		e.th = core.NewThread(nil)
 		e.srv = newServer(1 << 16)
 		e.srv.serve()
@@ -1007,7 +1020,10 @@ func TestC41(t *testing.T) {
 		}
 		e.A.authed = true
 		e.step("A: connected and logged in as %s", e.users[0].Name)
-		nU := 1 + gen.Uniform(t, "nU", 2)
+		nU := 1
+		if gen.Chance(t, "nU", 35) {
+			nU = 2
+		}
 		for i := 0; i < nU; i++ {
 			cn := e.newConn()
 			if gen.Chance(t, "two sessions", 50) {
@@ -1026,7 +1042,7 @@ func TestC41(t *testing.T) {
 			case "req":
 				e.uRequest(ui)
 			case "nonce":
-				cn := e.U[ui]
+				cn := e.unauth(ui)
 				desc := fmt.Sprintf("U%d: Nonce", ui)
 				e.step("%s", desc)
 				resp, errstr := rawRequest(cn.c, cn.sess[0], commands.Nonce, nil, false)
@@ -1039,6 +1055,9 @@ func TestC41(t *testing.T) {
 		}
 		// the connections that did not authenticate are still refused
 		for i, cn := range e.U {
+			if cn == nil {
+				continue
+			}
 			_, errstr := rawRequest(cn.c, cn.sess[0], commands.Size, nil, false)
 			if errstr == "" {
 				e.fail("final: unauthenticated connection U%d can read the database size", i)
